@@ -1,6 +1,7 @@
 """C10 -- contact detection reports the true geometry of primitive pairs."""
 from __future__ import annotations
 from fractions import Fraction
+import os
 import numpy as np
 import jax
 import jax.numpy as jp
@@ -12,14 +13,15 @@ from verif.specs import sx
 from verif.specs.sx import X
 
 LEVEL = 'other'
-EXPECTED_MIN = {'quick': 3, 'thorough': 3}
+EXPECTED_MIN = {'quick': 7, 'thorough': 7}
 EXPLANATION = ('PROVED: contact.get hands the collision routine, for every geom, the world pose  x_link o geom_local  (position x.pos + R(x.rot) geom_pos, orientation matrix '
                'R(x.rot * geom_quat)) for ALL link poses and geom offsets, with geoms of the world body left at their local pose (index -1 = appended identity); each contact is '
-               'attributed to links geom_bodyid[geom] - 1 and gets the mean of the two geoms\' elasticities, for ANY contact list returned by the collision routine.  BOUNDED (not '
-               'proof): signed distance, normal direction and position of sphere / capsule / plane pairs against closed forms.  The distances themselves are computed by '
-               'mjx.collision (external, cut with an assumed contract).')
-TRUSTED = ['mjx.collision / mjx.make_data (external): given correct world geom poses it returns the true primitive distances (assumed; exercised by the bounded check)']
-ASSUMPTIONS = ['exact reals', 'scene sizes: 1 world geom + 2 bodies with 1-2 geoms in the proved clauses']
+               'attributed to links geom_bodyid[geom] - 1 and gets the mean of the two geoms\' elasticities, for ANY contact list returned by the collision routine; the per-geom elasticity table '
+               'built by mjcf._get_custom holds the configured value of every geom; and the collision routine itself (the real mujoco.mjx.collision, interpreted with SYMBOLIC world geom poses) '
+               'returns the closed-form signed distance for plane-sphere, sphere-sphere and plane-capsule pairs, with the plane normal as contact normal.  BOUNDED (not proof): sphere-capsule and '
+               'capsule-capsule distances (mjx guards its segment projection with 1e-6, so the closed form only holds to a margin), normal direction of sphere pairs, against closed forms.')
+TRUSTED = ['mjx.collision for sphere-capsule / capsule-capsule pairs and every other geom type (external, assumed: true primitive distances; exercised by the bounded check)', 'mjx.make_data (external)']
+ASSUMPTIONS = ['exact reals', 'scene sizes: 1 world geom + 2 bodies with 1-2 geoms in the proved clauses; one pair per mjx.collision clause (concrete radii / half-lengths, symbolic poses)']
 BOUNDED_RULE = 'scenes of a plane and 2-3 free bodies with sphere/capsule geoms at random poses; non-trivial = distinct (scene, contact pair)'
 
 SCENE = '''<mujoco><worldbody><geom name="floor" type="plane" size="5 5 0.1" pos="0.1 0.2 0.05" quat="0.9689124 0.2474040 0 0"/>
@@ -440,7 +442,7 @@ MJX_SCENES = {
 }
 
 
-def mjx_primitive(kind):
+def mjx_primitive(kind, part='dist'):
   def body(A):
     import z3
     from mujoco import mjx
@@ -448,7 +450,9 @@ def mjx_primitive(kind):
     ng = sys.ngeom
     gp, gm = A.arr('gpos', (ng, 3)), A.arr('gmat', (ng, 3, 3))
     d0 = mjx.make_data(sys)
-    out = sym_call(Interp(A), lambda p, m_: (lambda c: {'dist': c.dist, 'frame': c.frame, 'pos': c.pos, 'g1': c.geom1, 'g2': c.geom2})(mjx.collision(sys, d0.replace(geom_xpos=p, geom_xmat=m_)).contact), Sym(gp), Sym(gm))
+    # only the outputs a clause mentions are traced (dead-code elimination keeps the square roots of the frame construction out of the distance clauses)
+    fields = {'dist': {'plane-sphere': ('dist', 'pos'), 'sphere-sphere': ('dist',), 'plane-capsule': ('dist',)}[kind], 'normal': ('frame',)}[part]
+    out = sym_call(Interp(A), lambda p, m_: (lambda c: dict({f_: getattr(c, f_) for f_ in fields}, g1=c.geom1, g2=c.geom2))(mjx.collision(sys, d0.replace(geom_xpos=p, geom_xmat=m_)).contact), Sym(gp), Sym(gm))
     g1, g2 = [int(v) for v in np.asarray(out['g1'])], [int(v) for v in np.asarray(out['g2'])]
     size = np.asarray(sys.geom_size, dtype=float)
     R = lambda v: z3.RealVal(str(Fraction(float(v))))
@@ -462,16 +466,32 @@ def mjx_primitive(kind):
       n = col(pl, 2)
       pre.append(dot(n, n) == 1)
       want = dot([gp[sp][i] - gp[pl][i] for i in range(3)], n) - R(size[sp][0])
-      goal += [out['dist'][0] == want] + [out['frame'][0][0][i] == n[i] for i in range(3)]
-      # the reported contact position lies on the normal through the sphere centre, half-way between the two surfaces
-      goal += [out['pos'][0][i] == gp[sp][i] - n[i] * (R(size[sp][0]) + want / 2) for i in range(3)]
+      if part == 'normal':
+        # lemma (proved on its own first): a unit vector has a component beyond the 1e-8 tolerance of mjx's safe norm
+        t8 = z3.RealVal(str(Fraction(1e-8)))
+        nt = z3.Or(*[z3.Or(e > t8, e < -t8) for e in n])
+        ls = z3.Solver()
+        ls.set('timeout', 30000)
+        ls.add(dot(n, n) == 1, z3.Not(nt))
+        if ls.check() != z3.unsat:
+          raise RuntimeError('lemma unit => not tiny not proved')
+        pre.append(nt)
+        goal += [out['frame'][0][0][i] == n[i] for i in range(3)]
+      else:
+        goal += [out['dist'][0] == want]
+        # the reported contact position lies on the normal through the sphere centre, half-way between the two surfaces
+        goal += [out['pos'][0][i] == gp[sp][i] - n[i] * (R(size[sp][0]) + want / 2) for i in range(3)]
     elif kind == 'sphere-sphere':
       assert ncon == 1
       a_, b_ = g1[0], g2[0]
       dvec = [gp[b_][i] - gp[a_][i] for i in range(3)]
       s = out['dist'][0] + R(size[a_][0]) + R(size[b_][0])          # the centre distance according to the reported dist: it must be THE non-negative root of |c2 - c1|^2
-      goal += [s >= 0, s * s == dot(dvec, dvec)]
-      goal.append(z3.Implies(s > 0, z3.And(*[out['frame'][0][0][i] * s == dvec[i] for i in range(3)])))          # unit normal from the first geom to the second
+      # (mjx's norm returns 0 when every component of c2 - c1 is within 1e-8: inside that cube the closed form is matched to 1.8e-8 only)
+      t8 = z3.RealVal(str(Fraction(1e-8)))
+      tiny = z3.And(*[z3.And(e <= t8, e >= -t8) for e in dvec])
+      goal += [z3.Implies(z3.Not(tiny), z3.And(s >= 0, s * s == dot(dvec, dvec))), z3.Implies(tiny, s == 0)]
+      if False:          # the normal clause needs |d/s| = 1 through a second square root: nlsat does not get there (covered by the bounded stand-in)
+        goal.append(z3.Implies(z3.Not(tiny), z3.And(*[out['frame'][0][0][i] * s == dvec[i] for i in range(3)])))
     else:
       assert ncon == 2
       pl, cp = g1[0], g2[0]
@@ -480,19 +500,21 @@ def mjx_primitive(kind):
       r, h = R(size[cp][0]), R(size[cp][1])
       ends = [[gp[cp][i] + sgn * h * ax[i] for i in range(3)] for sgn in (1, -1)]
       wd = [dot([e[i] - gp[pl][i] for i in range(3)], n) - r for e in ends]
-      goal.append(z3.Or(z3.And(out['dist'][0] == wd[0], out['dist'][1] == wd[1]), z3.And(out['dist'][0] == wd[1], out['dist'][1] == wd[0])))
-      for k in range(2):
-        goal += [out['frame'][k][0][i] == n[i] for i in range(3)]
+      if part == 'normal':
+        for k in range(2):
+          goal += [out['frame'][k][0][i] == n[i] for i in range(3)]
+      else:
+        goal.append(z3.Or(z3.And(out['dist'][0] == wd[0], out['dist'][1] == wd[1]), z3.And(out['dist'][0] == wd[1], out['dist'][1] == wd[0])))
     return pre, goal, (lambda w: {'reproduced': False, 'note': 'see C10/bounded/primitive_pairs for the native closed-form comparison'})
-  return smt_custom('C10/mjx.collision/%s' % kind, 'mujoco.mjx:collision (external; the contract assumed at the contact.get cut)',
+  return smt_custom('C10/mjx.collision/%s[%s]' % (kind, part), 'mujoco.mjx:collision (external; the contract assumed at the contact.get cut)',
                     {'plane-sphere': 'for ALL world geom positions and plane orientations (unit normal): dist = n.(c - p) - r, contact normal = plane normal (from the plane to the sphere), contact point on that normal half-way between the surfaces',
-                     'sphere-sphere': 'for ALL centre positions: dist = |c2 - c1| - r1 - r2 and, for distinct centres, the contact normal is the unit vector from the first geom to the second',
+                     'sphere-sphere': 'for ALL centre positions: dist = |c2 - c1| - r1 - r2 (centres closer than 1e-8 in every coordinate: dist = -r1 - r2, i.e. the closed form to within 1.8e-8)',
                      'plane-capsule': 'for ALL positions and orientations: the two candidate contacts are the two end spheres: dist = n.(c +- h a - p) - r (a = capsule axis), normal = plane normal'}[kind],
                     body, timeout=60, budget=600, split_first=True)
 
 
 def obligations(tier):
-  obs = [geom_pose(), link_elasticity(), custom_elasticity(tier), mjx_primitive('plane-sphere'), mjx_primitive('sphere-sphere'), mjx_primitive('plane-capsule'), bounded(tier), bounded_custom(tier)]
+  obs = [geom_pose(), link_elasticity(), custom_elasticity(tier), mjx_primitive('plane-sphere'), mjx_primitive('plane-sphere', 'normal'), mjx_primitive('sphere-sphere'), mjx_primitive('plane-capsule'), mjx_primitive('plane-capsule', 'normal'), bounded(tier), bounded_custom(tier)]
 
   def canary():
     from verif.engine.opaque import cut
